@@ -13,6 +13,8 @@ EXTENDS Bounded, Json
 
 CONSTANT Focus     \* TRUE: the generator only keeps behaviours in which the attester duties of the current
                    \* epoch are refreshed WHILE an attestation job of that epoch is running (the in-flight batch)
+CONSTANT FocusPasses   \* TRUE: every scheduling pass that may be kept back is (start-up, Prepare, refreshes), so
+                       \* that the passes for one epoch overlap wherever MaxPasses / MaxHeads allow (the passes batch)
 
 VARIABLES hist, fin
 svars == <<vars, hist, fin>>
@@ -28,19 +30,27 @@ E0 == Epoch(now)
 
 SNext ==
     /\ ~fin
-    /\ \/ \E d0, d1 \in AllDuties : NStart(d0, d1) /\ H([ev |-> "Start", d0 |-> d0, d1 |-> d1])
+    /\ \/ \E d0, d1 \in AllDuties : \E split \in BOOLEAN :
+            /\ NStart(d0, d1, split)
+            /\ (FocusPasses /\ "start" \in HoldKinds) => split
+            /\ H([ev |-> "Start", d0 |-> d0, d1 |-> d1, split |-> split])
        \/ NTick /\ H([ev |-> "Tick"])
-       \/ \E d \in AllDuties : \E k \in SubLates :
-            NPrepare(d, k) /\ H([ev |-> "Prepare", e |-> E0 + 1, d |-> d, k |-> k])
+       \/ \E d \in AllDuties : \E k \in SubLates : \E w \in BOOLEAN :
+            /\ NPrepare(d, k, w)
+            /\ (FocusPasses /\ "prepare" \in HoldKinds) => w
+            /\ H([ev |-> "Prepare", e |-> E0 + 1, d |-> d, k |-> k, split |-> w])
        \/ \E r \in env.subdue : NSubEnd(r) /\ H([ev |-> "SubEnd", e |-> r.s])
        \/ \E F \in SUBSET {E0, E0 + 1} : \E d0, d1 \in AllDuties : \E split \in BOOLEAN :
             /\ NHead(F, d0, d1, split)
             /\ (Focus /\ E0 \in F) => (\E s \in running : Epoch(s) = E0)
             /\ Focus => now \notin attjobs          \* the slot's head event comes after its job has started
+            /\ (FocusPasses /\ F # {}) => split      \* every refresh's pass is kept back: passes overlap
+            \* (the code compares the roots of a head event with those of the one before: no refresh on the first)
+            /\ (FocusPasses /\ F # {}) => \E i \in DOMAIN hist : hist[i].ev = "Head"
             /\ H([ev |-> "Head", split |-> split,
                   r |-> (IF E0 \in F THEN <<E0>> ELSE <<>>) \o (IF (E0 + 1) \in F THEN <<E0 + 1>> ELSE <<>>),
                   dm |-> (IF E0 \in F THEN <<d0>> ELSE <<>>) \o (IF (E0 + 1) \in F THEN <<d1>> ELSE <<>>)])
-       \/ \E r \in env.refr : NResched(r) /\ H([ev |-> "Resched", e |-> r.e])
+       \/ \E r \in env.refr : NPassEnd(r) /\ H([ev |-> "Resched", e |-> r.e, n |-> r.n])
        \/ \E ok \in BOOLEAN : \E k \in AttLates : NAttStart(ok, k) /\ H([ev |-> "AttStart", s |-> now, ok |-> ok, k |-> k])
        \/ \E s \in running : NAttEnd(s) /\ H([ev |-> "AttEnd", s |-> s])
        \/ NProbe /\ hist[Len(hist)].ev # "Probe" /\ (running \ AttHeld) # {} /\ H([ev |-> "Probe"])
